@@ -7,7 +7,7 @@ import z3
 from pyvc import core
 from pyvc.core import (SInt, SBool, SOid, SXVal, SBytes, SStr, And, Or, Not, Implies, lift_bool, zint, zbool,
                        Undecided)
-from pyvc.objects import Obj, NT, PyExc, PyClass, Builtin, BoundMethod, PDict, GenResult
+from pyvc.objects import Obj, NT, PyExc, PyClass, Builtin, BoundMethod, PDict, PSet, ASet, GenResult
 from pyvc.theories import OidTheory, XValTheory
 from pyvc.vu import VU
 
@@ -38,8 +38,57 @@ def exc_is(exc_obj, cls):
 
 
 def bare_client(rt, interp, **fields):
+    """
+    A Client built by its REAL ``__init__`` (so attributes a change adds to the constructor exist);
+    the message-processing model is a contract slot and name resolution is an opaque value.
+    """
+    from pyvc.objects import Opaque
     cls = get_cls(rt, interp, "puresnmp.api.raw:Client")
-    return Obj(cls, fields)
+    mpm_cls = PyClass("MPM(contract-slot)", [], kind="builtin")
+    rt.hooks["puresnmp.plugins.mpm:create"] = lambda i, c, a, k: Obj(mpm_cls, {"slot_args": a})
+    rt.call_hooks["Opaque"] = _opaque_call
+    creds = fields.pop("credentials", None)
+    if creds is None:
+        creds = Obj(get_cls(rt, interp, "puresnmp.credentials:V2C"),
+                    {"community": interp.ctx.fresh_str("community"), "mpm": 1})
+    sender = fields.pop("sender", Builtin("sender(unused)", lambda i, a, k: (_ for _ in ()).throw(
+        Undecided("the real transport was reached above the _send seam"))))
+    client = rt.instantiate(interp, cls, ["192.0.2.1", creds], {"sender": sender})
+    client.fields.update(fields)
+    return client
+
+
+def _opaque_call(interp, fn, args, kwargs):
+    from pyvc.objects import Opaque
+    if fn.name in ("ip_address", "IPv4Address"):
+        return Opaque("ip(%r)" % (args[0],))
+    raise Undecided("call of external %s" % fn.name)
+
+
+def snapshot(v, depth=0):
+    """Structural fingerprint of (shared) state, for frame conditions: nothing else changed."""
+    if depth > 6:
+        return ("deep",)
+    if isinstance(v, Obj):
+        if depth == 0 or v.cls.kind == "dataclass" or v.cls.name in ("Client",):
+            return ("obj", id(v), tuple(sorted((k, snapshot(x, depth + 1)) for k, x in v.fields.items())))
+        return ("obj", id(v), tuple(sorted((k, snapshot(x, depth + 1)) for k, x in v.fields.items()
+                                           if isinstance(x, (list, PDict, PSet, ASet)))))
+    if isinstance(v, list):
+        return ("list", id(v), tuple(snapshot(x, depth + 1) for x in v))
+    if isinstance(v, PDict):
+        return ("dict", id(v), tuple((snapshot(k, depth + 1), snapshot(x, depth + 1)) for k, x in v.pairs))
+    if isinstance(v, PSet):
+        return ("set", id(v), len(v.items))
+    if isinstance(v, ASet):
+        return ("aset", id(v), v.arr.get_id())
+    if isinstance(v, core.Sym):
+        return ("sym", v.e.get_id())
+    if isinstance(v, (int, str, bytes, bool, float, type(None))):
+        return ("val", v)
+    if isinstance(v, (tuple, NT)):
+        return ("tuple", tuple(snapshot(x, depth + 1) for x in v))
+    return ("id", id(v))
 
 
 def pdu_request_id(interp, pdu):
@@ -132,5 +181,14 @@ class ApiUnit(VU):
         return v
 
     def call_target(self, interp, client, *args, **kwargs):
+        """Call the function under contract; its frame condition is checked on every exit:
+        an operation leaves the client (config, mpm, every attribute and container it owns) unchanged."""
         fn = get_func(self.rt, interp, self.target)
-        return interp.call(BoundMethod(fn, client) if not isinstance(fn, BoundMethod) else fn, list(args), kwargs)
+        before = snapshot(client)
+        try:
+            return interp.call(BoundMethod(fn, client) if not isinstance(fn, BoundMethod) else fn, list(args), kwargs)
+        finally:
+            if not getattr(self, "no_frame_check", False):
+                after = snapshot(client)
+                for p in self.props:
+                    interp.ctx.check(oname(p, self.target, "frame", "client-state-unchanged"), before == after)
